@@ -7,7 +7,8 @@ import AslModel.Spec.Dis
 
 `run <lower 0|1> <n> {<start> <hex>}*n  <m> {d:<addr> | v:<va>:<len>:<M|L>[:<name>]}*m
      <rc|timeout> <stdout hex> <stderr hex>  <k|none> {<start> <hex>}*k`
-  one dasl run (+ the re-assembly of its output), same layout and answer as mode `c15`.  Lines of the real stdout that start
+  one dasl run (+ the re-assembly of its output), same layout and answer as mode `c15` (the image may also be given as the one
+  token `hex:<Intel-hex file text, hex encoded>`, see `Driver/C15.lean`).  Lines of the real stdout that start
   with `unknown ` are the callback's `printf` messages; they are compared (in order) with the model's `stdoutMark` lines, the
   rest of stdout with the model's listing.  `rc` = `timeout`: the real dasl was killed; `hang=1` must then be the model's
   verdict as well (`rc=eq`).
@@ -26,9 +27,12 @@ def unmark (s : String) : String := (s.drop 1).toString
 
 def handleRun (rest : List String) : String :=
   match rest with
-  | lw :: n :: rest =>
-    match n.toNat?.bind (fun k => parseChunks k rest) with
-    | some (imgc, m :: rest2) =>
+  | lw :: rest =>
+    match parseImage rest with
+    | .error e => "error=" ++ e
+    | .ok (_, []) => "error=parse1"
+    | .ok (ld, m :: rest2) =>
+      let imgc := ld.mem
       match m.toNat?.bind (fun k => parseEntries k rest2) with
       | some (entries, rc :: so :: se :: kk :: rest3) =>
         let re : Option Spec.Mem := if kk = "none" then none else (kk.toNat?.bind (fun k => parseChunks k rest3)).map (·.1)
@@ -37,8 +41,9 @@ def handleRun (rest : List String) : String :=
           let lower := lw = "1"
           let timedOut := rc = "timeout"
           let rrc : Int := (rc.toInt?).getD 99
-          let img : Image := imgc.foldl (fun im c => imageInsert ⟨c.1, c.2⟩ im) []
-          let r := runDasl M87C.disassemble img lower entries 300000
+          let img : Image := ld.img
+          let r0 := runDasl M87C.disassemble img lower entries 300000
+          let r : Result := if ld.ok then { r0 with stderr := ld.err ++ r0.stderr } else ⟨false, "", [], [], [], [], [], false⟩
           let realOut := strOfBytes rso
           let realErr := strOfBytes rse
           let realLines := realOut.splitOn "\n"
@@ -51,7 +56,11 @@ def handleRun (rest : List String) : String :=
           let l1 := sameSet r.codeC ((r.areas.filter (!·.2)).map (·.1))
           let areasReal := Spec.parseAreas realOut
           let areasModel : List Spec.Area := r.areas.map (fun p => ⟨p.1.start, p.1.start + p.1.len - 1, p.2⟩)
-          let (areasCmp, ins, dj, by_, bad, ncode, ndata, nbytes) : String × String × String × String × String × Nat × Nat × Nat :=
+          let direct : List Nat := entries.filterMap (fun e => match e with | .direct a => some a | _ => none)
+            let entryOk : String := match areasReal with
+              | none => "fail"
+              | some ar => if Spec.entriesCovered imgc ar direct then "ok" else "fail"
+            let (areasCmp, ins, dj, by_, bad, ncode, ndata, nbytes) : String × String × String × String × String × Nat × Nat × Nat :=
             match areasReal with
             | none => ("unparsed", "fail", "fail", "na", "-", 0, 0, 0)
             | some ar =>
@@ -66,12 +75,11 @@ def handleRun (rest : List String) : String :=
                (ar.filter (!·.isData)).length, (ar.filter (·.isData)).length,
                ar.foldl (fun s x => s + (x.last + 1 - x.first)) 0)
           let rcEq := if timedOut then modelHang else (!modelHang && ((rrc == 0) == r.ok))
-          let base := s!"model={if r.ok then "ok" else "rejected"} rc={if rcEq then "eq" else "ne"} text={if textEq || timedOut then "eq" else "ne"} err={if mErr == realErr || timedOut then "eq" else "ne"} l1={if l1 then "eq" else "ne"} hang={if modelHang then 1 else 0} areas={if timedOut then "eq" else areasCmp} inside={ins} disjoint={dj} bytes={by_} bad={bad} ncode={ncode} ndata={ndata} nbytes={nbytes} ninstr={r.traced.length}"
+          let base := s!"model={if r.ok then "ok" else "rejected"} rc={if rcEq then "eq" else "ne"} text={if textEq || timedOut then "eq" else "ne"} err={if mErr == realErr || timedOut then "eq" else "ne"} l1={if l1 then "eq" else "ne"} hang={if modelHang then 1 else 0} areas={if timedOut then "eq" else areasCmp} inside={ins} disjoint={dj} entry={entryOk} bytes={by_} bad={bad} ncode={ncode} ndata={ndata} nbytes={nbytes} ninstr={r.traced.length}"
           if textEq || timedOut then base
           else base ++ " mtext=" ++ hex (bytesOfStr r.stdout) ++ " merr=" ++ hex (bytesOfStr mErr) ++ " munk=" ++ hex (bytesOfStr (String.intercalate "\n" mUnknown))
         | _, _ => "error=parse3"
       | _ => "error=parse2"
-    | _ => "error=parse1"
   | _ => "error=parse0"
 
 def parsePairs : Nat → List String → Option (List (String × Nat) × List String)
